@@ -148,6 +148,8 @@ def run_batch(ctx, bases, stats):
             stats["branches_taken"] += sum(1 for a, b in final if a.startswith("b") and b == "completed")
             needs_ids = set(re.findall(r'"id": "(b\d+)"[^{}]*?"needs"', json.dumps(sc["models"][0])))
             stats["needs_branch_ran"] += sum(1 for a, b in final if a in needs_ids and b == "completed")
+            else_ids = set(re.findall(r'"id": "(b\d+)"[^{}]*?"else": true', json.dumps(sc["models"][0])))
+            stats["else_taken"] += sum(1 for a, b in final if a in else_ids and b == "completed")
             key = sc["id"].rsplit("-v", 1)[0]
             # variants are compared on their outcome: a run whose answer budget ended with interrupts still open has none yet
             if not any(b in ("interrupted", "running", "ready", "pending", "none") for a, b in final):
